@@ -77,7 +77,7 @@ local function F()
 end
 IN
 emit("A", coroutine.resume(co, 4))`},
-	{"gocont", `local co = coroutine.wrap(function() keep(coroutine.running()) local ok, x = pcall(coroutine.yield, 1) emit("co end", ok, x) return 2 end)
+	{"ctxswitch/pcall-yield", `local co = coroutine.wrap(function() keep(coroutine.running()) local ok, x = pcall(coroutine.yield, 1) if not ok then caught("pcall") end emit("co end", ok, x) return 2 end)
 emit("A", co())
 local function F() return co(5) end
 IN
@@ -90,19 +90,19 @@ emit("post", co(), co(), co())`},
 }
 
 var xSingles = []xprog{
-	{"yield-inside-pcall,main-returns", `local co = coroutine.wrap(function() keep(coroutine.running()) pcall(function() coroutine.yield(1) end) return 2 end)
+	{"ctxswitch/yield-inside-pcall,main-returns", `local co = coroutine.wrap(function() keep(coroutine.running()) if not pcall(function() coroutine.yield(1) end) then caught("pcall") end return 2 end)
 emit("A", co())
 emit("post")`},
-	{"yield-inside-pcall,resumed-later", `local co = coroutine.wrap(function() keep(coroutine.running()) local ok = pcall(function() coroutine.yield(1) end) emit("co", ok) return 2 end)
+	{"ctxswitch/yield-inside-pcall,resumed-later", `local co = coroutine.wrap(function() keep(coroutine.running()) local ok = pcall(function() coroutine.yield(1) end) if not ok then caught("pcall") end emit("co", ok) return 2 end)
 emit("A", co())
 local s = ("x"):rep(100)
 emit("mid", #s)
 emit("B", co())
 emit("post")`},
-	{"yield-inside-callcontext,main-returns", `local co = coroutine.wrap(function() keep(coroutine.running()) local ctx = runtime.callcontext({kill={memory=50000}}, function() coroutine.yield(1) end) emit("co", ctx.status) return 2 end)
+	{"ctxswitch/yield-inside-callcontext,main-returns", `local co = coroutine.wrap(function() keep(coroutine.running()) local ctx = runtime.callcontext({kill={memory=50000}}, function() coroutine.yield(1) end) emit("co", ctx.status) return 2 end)
 emit("A", co())
 emit("post")`},
-	{"yield-inside-callcontext,main-allocates", `local co = coroutine.wrap(function() keep(coroutine.running()) local ctx = runtime.callcontext({kill={memory=3000}}, function() coroutine.yield(1) end) emit("co", ctx.status) return 2 end)
+	{"ctxswitch/yield-inside-callcontext,main-allocates", `local co = coroutine.wrap(function() keep(coroutine.running()) local ctx = runtime.callcontext({kill={memory=3000}}, function() coroutine.yield(1) end) emit("co", ctx.status) return 2 end)
 emit("A", co())
 local t = {} for i = 1, 20 do t[i] = ("x"):rep(200) end
 emit("mid", #t)
@@ -145,6 +145,7 @@ func xprogs() []xprog {
 
 // ---------------------------------------------------------------- families
 
+// localRunner runs the program in this process, on a fresh runtime per run.
 func localRunner(name, src string) func(m uint64) *Res {
 	return func(m uint64) *Res {
 		r := execJob(&Job{Name: name, Src: src, M: m, Epi: true})
@@ -177,7 +178,7 @@ func sweepFamily(tier string) *core.Family {
 func xctxFamily(tier string) *core.Family {
 	ps := xprogs()
 	return &core.Family{
-		Name: "xctx", Size: uint64(len(ps)), BudgetSeconds: 120, HangSeconds: 300,
+		Name: "xctx", Size: uint64(len(ps)), BudgetSeconds: xctxBudget(tier), HangSeconds: 300,
 		Show: func(i uint64) string { return "prog=" + ps[i].name + "\n" + ps[i].src },
 		Run: func(i uint64) core.Outcome {
 			p := ps[i]
@@ -225,13 +226,27 @@ func xctxFamily(tier string) *core.Family {
 func ampFamily(tier string) *core.Family {
 	cs := ampCases(tier)
 	return &core.Family{
-		Name: "amp", Size: uint64(len(cs)), BudgetSeconds: 400, HangSeconds: 200,
+		Name: "amp", Size: uint64(len(cs)), BudgetSeconds: ampBudget(tier), HangSeconds: 200,
 		Show: func(i uint64) string {
 			j := cs[i].job(filepath.Join(ampDir(), "sentinel"))
 			return cs[i].sig() + "\n" + j.Pro + "\n-- measured:\n" + j.Src
 		},
 		Run: func(i uint64) core.Outcome { return runAmp(cs[i]) },
 	}
+}
+
+func ampBudget(tier string) int {
+	if tier == "thorough" {
+		return 400
+	}
+	return 120
+}
+
+func xctxBudget(tier string) int {
+	if tier == "thorough" {
+		return 300
+	}
+	return 90
 }
 
 // cleanStale removes sentinel directories of dead processes.
@@ -276,9 +291,10 @@ func main() {
 		Init: func(tier string) {
 			runtime.GOMAXPROCS(1)
 			runtime.MemProfileRate = 0
-			if g := os.Getenv("C06_GC"); g != "" {
+			if g := os.Getenv("C06_GCMB"); g != "" {
 				n, _ := strconv.Atoi(g)
-				debug.SetGCPercent(n)
+				debug.SetGCPercent(-1)
+				debug.SetMemoryLimit(int64(n) << 20)
 			}
 			initEpi()
 		},
